@@ -55,6 +55,7 @@ type Group struct {
 	SSAPkgs  map[string]*ssa.Package
 	LoadS    float64
 	selected []*Meta
+	Twins    map[string][]string // package -> harness files of another package injected with the package clause swapped
 }
 
 func repoRoot() string {
@@ -96,6 +97,24 @@ func discover() ([]*Group, error) {
 				if err := parseHarnessFile(g, pd.Name(), f); err != nil {
 					return nil, err
 				}
+				src, _ := os.ReadFile(f)
+				for _, line := range strings.Split(string(src), "\n") {
+					if strings.HasPrefix(line, "//verif:twin ") {
+						tp := strings.TrimSpace(strings.TrimPrefix(line, "//verif:twin "))
+						if g.Twins == nil {
+							g.Twins = map[string][]string{}
+						}
+						g.Twins[tp] = append(g.Twins[tp], f)
+						if err := parseHarnessFile(g, tp, f); err != nil {
+							return nil, err
+						}
+					}
+				}
+			}
+		}
+		for tp := range g.Twins {
+			if !has(g.Pkgs, tp) {
+				g.Pkgs = append(g.Pkgs, tp)
 			}
 		}
 		if len(g.Metas) > 0 {
@@ -206,6 +225,19 @@ func (g *Group) buildOverlay() error {
 				return err
 			}
 			g.Overlay[filepath.Join(repo, pkg, "zz_verif_"+filepath.Base(f))] = b
+		}
+	}
+	for tp, files := range g.Twins {
+		for _, f := range files {
+			b, err := os.ReadFile(f)
+			if err != nil {
+				return err
+			}
+			src := string(b)
+			i := strings.Index(src, "\npackage ")
+			j := strings.Index(src[i+1:], "\n")
+			src = src[:i+1] + "package " + tp + src[i+1+j:]
+			g.Overlay[filepath.Join(repo, tp, "zz_verif_twin_"+filepath.Base(f))] = []byte(src)
 		}
 	}
 	// in-package declaration renames
